@@ -196,7 +196,10 @@ def run(prop, tier, seed, replay=None):
             # observational, beyond the listed properties: replica convergence (spec/Replica.tla)
             lim = next(u for u in units if u[0] == "limit" and u[3] == "fd")[4]
             pool = [c for c in lim if '"persist":true' in c.replace(" ", "")]
-            beyond = replica.run(sc, random.Random(seed).sample(pool, min(len(pool), 6000 if quick else len(pool))))
+            try:
+                beyond = replica.run(sc, random.Random(seed).sample(pool, min(len(pool), 6000 if quick else len(pool))))
+            except Exception as ex:     # observational: never part of the verdict
+                beyond = {"error": "replica observation failed: %s" % str(ex)[:200]}
             if "code" in beyond:
                 log("[C02] beyond the listed properties: replica diverged after %d of %d changes of the real server feature (design level: %d of %d cases); %d steps not as modelled" % (
                     beyond["code"]["replica_diverged"], beyond["code"]["changes_executed"], beyond["design"]["diverging"], beyond["design"]["cases"], beyond["code"]["not_as_modelled"]))
